@@ -208,6 +208,7 @@ def run(ck):
     ck.rule('C17.e', 'at-most variants perform exactly one driver-path call, contain no loop and return its result')
     ck.rule('C17.f', 'plumbing counts: what is put equals what was got, bounded by the request and by the auxiliary region; counted loops subtract the moved count and return n; drains stop at the first negative result and return it')
     ck.rule('C17.h', 'kind / union-member agreement: constructors set kind and the matching driver member; every use of .octet/.chunk lies behind the matching test of kind')
+    ck.rule('C17.j', 'source_get_octet / sink_put_octet are one-shot: one driver call per request through the member matching the kind, the driver\'s answer returned unchanged (no retry, no adaptor)')
     ck.rule('C17.i', 'descriptor drivers (endpoints/posix.c): the system call gets the rest of the caller\'s chunk; an error (or end of file) is answered only when no octet was moved in this call')
     ck.rule('C17.g', 'buffer drivers delegate to byte_buffer_consume_at_most / byte_buffer_add with unchanged arguments')
     ck.not_decided += ['order / no duplication over whole driver scripts as such (induction over the position invariant)',
@@ -247,6 +248,7 @@ def run(ck):
     rule_atmost(ck, u, sym.Engine(u, sizeof=so, inline={'channel_has_buffer_ext'}, other_units=[ub]))
     rule_g(ck)
     rule_fd_drivers(ck)
+    rule_one_shot_octet(ck)
     rule_trivial(ck)
     rule_h(ck, u, so, ub)
 
@@ -1125,6 +1127,58 @@ def rule_fd_drivers(ck):
                        if bad is None else bad)
     if seen == 0:
         ck.notes.append('C17.i: no descriptor driver in this configuration')
+
+
+def rule_one_shot_octet(ck):
+    """C17.j  source_get_octet / sink_put_octet are the ONE-SHOT calls: one request of the caller is one request to the
+    driver, and what the driver answers - a count, 0, -EINTR, -EAGAIN, a hard error - is what the caller gets.  The codecs
+    that promise "source or sink errors are returned unchanged" (SLIP decoder / encoder) and the taps of the register
+    protocol are written against exactly that; the retrying behaviour belongs to the chunk calls.  Per path: exactly one
+    call, through the driver member matching the kind (octet driver: (driver, datum); chunk driver: (driver, datum, 1)),
+    no loop, no other call, the result returned unchanged."""
+    rel = 'src/endpoints/core.c'
+    u = cast.load(rel)
+    ck.unit(rel)
+    eng = sym.Engine(u, sizeof={})
+    OCT = u.enums.get('DATA_KIND_OCTET')
+    for fn, obj, memb in (('source_get_octet', ('v', 'source'), 'source'), ('sink_put_octet', ('v', 'sink'), 'sink')):
+        f = u.fn(fn)
+        if f is None:
+            ck.broken('C17.j', fn, '', 'function missing (anchor vanished)')
+            continue
+        ck.function(fn)
+        try:
+            ps = eng.paths(fn)
+        except (sym.Unsupported, sym.PathLimit) as e:
+            ck.broken('C17.j', fn, cast.where(f), 'path enumeration: %s' % e)
+            continue
+        ck.analysed['paths'] += len(ps)
+        bad = None
+        kinds = set()
+        for p in ps:
+            cs = p.calls()
+            if p.loops or p.end != 'return':
+                bad = bad or 'the one-shot call loops'
+                continue
+            if len(cs) != 1 or cs[0].kind != 'icall' or cs[0].name not in (memb + '.octet', memb + '.chunk'):
+                bad = bad or ('goes through %s instead of calling the driver once: what the driver answers (-EINTR, -EAGAIN, 0) no longer reaches the caller as it is'
+                              % ', '.join(e.name for e in cs))
+                continue
+            e = cs[0]
+            isoct = any(c == ('cmp', '==', ('f', obj, 'kind'), C(OCT)) for c in p.cond_terms())
+            isnot = any(c == ('cmp', '!=', ('f', obj, 'kind'), C(OCT)) for c in p.cond_terms())
+            want = memb + ('.octet' if isoct else '.chunk')
+            if not (isoct or isnot) or e.name != want:
+                bad = bad or 'driver member %s is used on a path that has not established the matching kind' % e.name
+            if strip_cast(e.args[0]) != ('f', obj, 'driver') or (e.name.endswith('.chunk') and (len(e.args) != 3 or strip_cast(e.args[2]) != C(1))):
+                bad = bad or 'driver called with (%s)' % ', '.join(fmt(a) for a in e.args)
+            if strip_cast(p.ret) != e.result:
+                bad = bad or 'the driver\'s answer is not returned unchanged (%s)' % fmt(p.ret)
+            kinds.add(e.name)
+        if bad is None and kinds != {memb + '.octet', memb + '.chunk'}:
+            bad = 'driver kinds served: %s' % sorted(kinds)
+        ck.verdict(bad is None, 'C17.j', fn, cast.where(f),
+                   'one driver call per request, by kind, answer returned unchanged' if bad is None else bad)
 
 
 def rule_g(ck):
